@@ -219,8 +219,14 @@ def wireVerdict (res : String) : Option String :=
             -- counters are taken in order, but a stand-alone acknowledgement for a duplicate goes to the
             -- wire directly while an older message still waits in the transmit slot: a counter may
             -- appear a few positions late. Anything further back is a counter that went backwards.
-            if d.ctr + 16 ≤ s.max then
+            if d.ctr + 16 ≤ s.max && d.sess != 0 then
               (acc.1, some s!"datagram {d.idx} (node {d.sender}, session {d.sess}): new counter {d.ctr} lies far below earlier ones (max {s.max}): the send counter went backwards")
+            else if d.ctr + 16 ≤ s.max then
+              -- an UNSECURED stream (session id 0: no key, no nonce; the property's counter clause speaks of
+              -- secure sessions): a node that lost its unsecured session towards this peer (e.g. a handshake
+              -- that ended with an error) creates a new one with a new random counter when the peer's
+              -- retransmission arrives - a new epoch of the stream, not a counter that went backwards
+              (acc.1.map (fun t => if t.key == key then { t with seen := (d.ctr, d.hex) :: t.seen, max := d.ctr } else t), none)
             else
               (acc.1.map (fun t => if t.key == key then { t with seen := (d.ctr, d.hex) :: t.seen, max := max t.max d.ctr } else t), none)
     (dgs.foldl step ([], none)).2
@@ -239,7 +245,14 @@ def step (st : St) (line : String) : St × String :=
         match wireVerdict out with
         | some why => (st, if why.startsWith "BAD" then why else s!"ORA {why}")
         | none => (st, "ok")
-      | _ => (st, if out = "hang" then "ORA the script did not finish (hang)" else "ok")
+      | _ =>
+        if out = "hang" then (st, "ORA the script did not finish (hang)")
+        -- the transport refuses a rebuilt message that differs from its first transmission (`Invalid`): that must
+        -- never hit an honest (idempotent) builder - only the harness's `flaky=` builders and the handshakes whose
+        -- node certificate was replaced under them (`upd=`)
+        else if out.startsWith "err:Invalid" && !(w.any (fun t => t.startsWith "flaky=" || t.startsWith "upd=")) && w.getD 0 "" != "hs" then
+          (st, "ORA the transport refused the retransmission of an idempotent builder (send failed with Invalid)")
+        else (st, "ok")
     else
     let (res, snapS) := splitHash out
     let (m', dis) := modelStep st.m op out
